@@ -32,6 +32,7 @@ type Sched struct {
 	Sticky   int    `json:"sticky"`
 	Preempts []int  `json:"preempts,omitempty"`
 	Choices  []int  `json:"choices,omitempty"`
+	Selects  []int  `json:"selects,omitempty"` // pinned choices among ready select cases
 }
 
 // Plan is one run.
@@ -95,13 +96,14 @@ func (v Violation) Sig() string {
 // Outcome of one run.
 type Outcome struct {
 	Violations []Violation      `json:"violations,omitempty"`
-	Hash       string           `json:"hash"`            // event-log hash
-	Counters   map[string]int64 `json:"counters"`        // faults fired, probes, steps, ...
-	SimNanos   int64            `json:"sim_nanos"`       // simulated time covered
+	Hash       string           `json:"hash"`              // event-log hash
+	Counters   map[string]int64 `json:"counters"`          // faults fired, probes, steps, ...
+	SimNanos   int64            `json:"sim_nanos"`         // simulated time covered
 	Trouble    string           `json:"trouble,omitempty"` // harness trouble (never a violation)
 	Nontrivial bool             `json:"nontrivial"`
 	Log        []string         `json:"log,omitempty"`
 	Choices    []int            `json:"choices,omitempty"` // schedule choices actually taken
+	Selects    []int            `json:"selects,omitempty"` // select choices actually taken
 	Sample     any              `json:"sample,omitempty"`  // human-readable summary of what the run did
 }
 
@@ -136,18 +138,18 @@ func (o *Outcome) Has(sig string) bool {
 
 // ReplayFile is what is written to /verif/replays.
 type ReplayFile struct {
-	Property   string     `json:"property"`
-	Signature  string     `json:"signature"`
-	Violation  Violation  `json:"violation"`
-	Seed       uint64     `json:"seed"`
-	Plan       *Plan      `json:"plan"`
-	Hash       string     `json:"event_log_hash"`
-	Original   *Plan      `json:"original_plan,omitempty"`
-	Minimised  bool       `json:"minimised"`
-	Reruns     int        `json:"minimiser_reruns"`
-	ReplayRate string     `json:"replay_rate,omitempty"`
-	Log        []string   `json:"event_log,omitempty"`
-	HowTo      string     `json:"how_to_replay"`
+	Property   string    `json:"property"`
+	Signature  string    `json:"signature"`
+	Violation  Violation `json:"violation"`
+	Seed       uint64    `json:"seed"`
+	Plan       *Plan     `json:"plan"`
+	Hash       string    `json:"event_log_hash"`
+	Original   *Plan     `json:"original_plan,omitempty"`
+	Minimised  bool      `json:"minimised"`
+	Reruns     int       `json:"minimiser_reruns"`
+	ReplayRate string    `json:"replay_rate,omitempty"`
+	Log        []string  `json:"event_log,omitempty"`
+	HowTo      string    `json:"how_to_replay"`
 }
 
 // ---------------------------------------------------------------------------
